@@ -40,6 +40,17 @@ class Obj:
     def __repr__(self):
         return f"<Obj {self._name}>"
 
+    def __str__(self):
+        if self._name.startswith("exc:"):   # str(exc) is the message
+            a = self._attrs.get("args")
+            if isinstance(a, tuple) and len(a) == 1:
+                return str(a[0])
+            if isinstance(a, tuple) and not a:
+                return ""
+            if self._attrs.get("detail") is not None:
+                return str(self._attrs["detail"])
+        return repr(self)
+
 
 class Unsupported(Exception):
     pass
@@ -717,6 +728,25 @@ class PureInterp:
     def e_Constant(self, n, env, module, depth):
         return n.value
 
+    def _module_const(self, canon, obj, name, depth):
+        cache = self.__dict__.setdefault("_const_cache", {})
+        if canon in cache:
+            return cache[canon]
+        try:
+            v = self.ev.eval(obj[2], obj[1])
+            if type(v) in (list, dict, set):
+                # a module-level list/dict/set is ONE object for the whole process: an alias that appends to it leaks into later calls
+                import copy
+                v = cache[canon] = copy.deepcopy(v)
+            return v
+        except CantEval:
+            if canon not in cache:  # one object per module constant (sentinels are compared by identity)
+                try:
+                    cache[canon] = self.eval(obj[2], {}, obj[1], depth + 1)  # e.g. _PATTERN = re.compile(...)
+                except (Unsupported, Raised):
+                    cache[canon] = Obj("opaque:" + name)  # e.g. logger = logging.getLogger(__name__)
+            return cache[canon]
+
     def e_Name(self, n, env, module, depth):
         if n.id in env:
             return env[n.id]
@@ -730,16 +760,7 @@ class PureInterp:
             return FuncRef(canon)
         obj = self.index.lookup(canon)
         if isinstance(obj, tuple) and obj[0] == "const":
-            try:
-                return self.ev.eval(obj[2], obj[1])
-            except CantEval:
-                cache = self.__dict__.setdefault("_const_cache", {})
-                if canon not in cache:  # one object per module constant (sentinels are compared by identity)
-                    try:
-                        cache[canon] = self.eval(obj[2], {}, obj[1], depth + 1)  # e.g. _PATTERN = re.compile(...)
-                    except (Unsupported, Raised):
-                        cache[canon] = Obj("opaque:" + n.id)  # e.g. logger = logging.getLogger(__name__)
-                return cache[canon]
+            return self._module_const(canon, obj, n.id, depth)
         if isinstance(obj, (FuncInfo, ClassInfo)):
             return obj
         return FuncRef(canon)
@@ -752,7 +773,10 @@ class PureInterp:
             if isinstance(obj, (FuncInfo, ClassInfo)):
                 return obj
             if isinstance(obj, tuple) and obj[0] == "const":
-                return self.ev.eval(obj[2], obj[1])
+                try:
+                    return self._module_const(canon, obj, n.attr, depth)
+                except CantEval:
+                    raise
             try:
                 v = self.ev.eval(n, module)
                 if not isinstance(v, FuncRef):
